@@ -71,6 +71,12 @@ Reject(why, exp) == PrintT("REJECT " \o ToJson([l |-> l, why |-> why, ev |-> Ev,
 TInit == st = EmptySt /\ map = <<>> /\ lastOp = Lbl("init", 0, 0, 0) /\ l = 1 /\ skipping = FALSE /\ nconf = 0 /\ ncmp = 0
 TNext == /\ l <= NT /\ l' = l + 1 /\ lastOp' = lastOp
          /\ IF Ev.op = "reset" THEN st' = EmptySt /\ map' = <<>> /\ skipping' = FALSE /\ UNCHANGED <<nconf, ncmp>>
+            ELSE IF Ev.op = "ctorsz" THEN
+                 \* the constructor on regions of many sizes, each flush against a guard page: it either refuses the region or creates a
+                 \* table of at least one slot that fits into it, and writes nowhere else (bad = number of sizes where that failed)
+                 /\ UNCHANGED <<st, map, nconf, ncmp>>
+                 /\ IF Ev.bad = 0 \/ {"image", "guard"} \cap Owned = {} THEN UNCHANGED skipping
+                    ELSE Reject({"image", "guard"}, "constructor accepted a region it does not fit into, or wrote outside it") /\ UNCHANGED skipping
             ELSE IF skipping THEN UNCHANGED <<st, map, skipping, nconf, ncmp>>
             ELSE IF Ev.op \in {"crash", "timeout"} THEN
                  Reject({Ev.op, "result", "image"}, "no action admits this event") /\ skipping' = TRUE /\ UNCHANGED <<st, map, nconf, ncmp>>
